@@ -51,6 +51,25 @@ CHECKS = {
         "(checked per run); plan parsing/YAML/environment construction outside the model.",
    technique="Coq proof over the engine+api model + trace-driven correspondence on edit chains",
    design="7 C04"),
+ "C05": dict(
+   text="Coq theorems about play() for EVERY store type and router: the actions handed to the router at the next action are exactly "
+        "rev(emitted callbacks of the previous events) ++ [action] ++ done callbacks (each carrying name, (method, tag), payload), "
+        "nothing of an older action survives, and checkpoint+restore in between is transparent. The model's queue is compared in "
+        "Coq with the exact list of actions the real router received, for every play of recorded runs incl. reloads/rollbacks.",
+   note="Trusted: Coq kernel; restore∘save=id; listener matching lives inside the router (quantified over, not modelled); "
+        "correspondence sampled over jobs/plans.",
+   technique="Coq proof over a hand-written model of play() + router-level dispatch correspondence evaluated in Coq",
+   design="7 C05"),
+ "C06": dict(
+   text="Coq theorems: one play advances the clock by exactly the payload of its direct *.elapse action (relayed callbacks add "
+        "nothing); each command advances it by its documented amount (ELAPSE t / first positive delay of the CAST's own play / "
+        "pending delay of the named skill for RESOLVE / 0 for USE, KEYDOWNSTOP); play-log payloads add up; the clock is monotone "
+        "under non-negative ELAPSE. For every router whose components do not write the clock. Documented advance evaluated in Coq "
+        "on recorded logs and compared with recorded clocks; the frame hypothesis and elapsed-payload clause monitored per play.",
+   note="Trusted: Coq kernel; frame hypothesis (monitored); tick-valued time (binary64 rounding of clock additions outside); "
+        "'elapsed carries the elapse time' is proved per modelled component under C09/C07, monitored for the rest.",
+   technique="Coq proof over models of play(), timer and operation handlers + clock correspondence evaluated in Coq",
+   design="7 C06"),
 }
 
 NOT_APPLICABLE = {}
